@@ -944,6 +944,9 @@ def c16_run(rep, tier, seed, tr):
     scen = [
         (["-E", "cxx=cpp", "list"], {"x.cxx": "// <block name=\"a\">\n// </block>\n"}, 0, "x.cxx"),
         (["-E", "c++=cpp", "-E", "hh=h", "list"], {"d/y.c++": "// <block name=\"a\">\n// </block>\n", "z.hh": "/* <block name=\"b\"> */\n/* </block> */\n"}, 0, "d/y.c++"),
+        # a mapping may name a registered suffix that is itself a key (identity, swap): one step is taken, never a chain
+        (["-E", "py=py", "list"], {"x.py": "# <block name=\"a\">\n# </block>\n"}, 0, "x.py"),
+        (["-E", "h=c", "-E", "c=h", "list"], {"a.h": "// <block name=\"a\">\n// </block>\n", "b.c": "/* <block name=\"b\"> */\n/* </block> */\n"}, 0, "d/y.c++"),
         (["-E", "foo=bar", "list"], {"x.py": "# <block name=\"never-closed\">\n"}, "nonzero", None),
         (["-E", "foo=PY", "list"], {"x.py": "# <block name=\"never-closed\">\n"}, "nonzero", None),
         (["-E", "foo", "list"], {"x.py": "# ok\n"}, "nonzero", None),
@@ -1316,6 +1319,27 @@ def c04_large(rep, tier):
             return out
         finally:
             _sh.rmtree(root, ignore_errors=True)
+    # options are input too: `-E` maps whose values are keys (identity, swap, longer cycles) with files on the cycle
+    def cyc(args_files):
+        args, fs = args_files
+        root = C.tmp_root()
+        try:
+            C.materialise(root, list(fs.items()))
+            return C.run_bw(root, args, env={"BLOCKWATCH_TERMINAL_MODE": "1"}, timeout=60)
+        finally:
+            _sh.rmtree(root, ignore_errors=True)
+    cyc_cases = [(["-E", "py=py", "list"], {"x.py": "# <block name=\"a\">\n# </block>\n"}),
+                 (["-E", "h=c", "-E", "c=h"], {"a.h": "// <block name=\"a\">\n// </block>\n", "b.c": "/* <block name=\"b\"> */\n/* </block> */\n"}),
+                 (["-E", "js=ts", "-E", "ts=tsx", "-E", "tsx=js", "list"], {"a.js": "// <block name=\"a\">\n// </block>\n", "b.tsx": "// <block name=\"b\">\n// </block>\n"})]
+    for (args, fs), res in zip(cyc_cases, C.pmap(cyc, cyc_cases, workers=3)):
+        rep.evaluations += 1
+        rep.traces += 1
+        rep.nontrivial.add("cyclic-E:" + " ".join(args))
+        bad = res.get("timeout") or res["exit"] not in (0, 1) or "panicked at" in res["stderr"]
+        rep.count("cyclic -E:" + ("BAD" if bad else f"exit{res['exit']}"))
+        if bad:
+            rep.violation({"property": rep.prop, "component": "cyclic -E map", "what": "an -E map whose values are keys makes the binary hang or crash",
+                           "args": args, "files": fs, "cli": {"exit": res.get("exit"), "timeout": res.get("timeout", False), "stderr": res["stderr"][:400]}})
     names = sorted(files)
     for name, outs in zip(names, C.pmap(one, names, workers=9)):
         for mode, res in outs:
@@ -1897,6 +1921,15 @@ def c10_async_ranges(rep, tier, seed, tr):
     rows = K.run_component(rep.prop, "lua", [], seed, n, tier)
     K.correspondence(rep, rows, "lua (ranges)", lambda c, i, m: len(i.get("run", {}).get("diags", [])) >= 1, known=K.load_known(rep.prop))
     c19_run(rep, tier, seed, tr, n_override=n_for(tier, 30, 300))
+
+
+_c18_src = CHECKS["C18"]["run"]
+def _c18_run(rep, tier, seed, tr):
+    _c18_src(rep, tier, seed, tr)
+    # a scripted block's diagnostic must survive when the other asynchronous validator (check-ai) reports on the same file
+    rep.rules.append("plus 30 (thorough: 300) runs through the binary where scripted blocks share files with check-ai blocks (fake endpoint, delayed answers)")
+    c19_run(rep, tier, seed + 2, tr, n_override=n_for(tier, 30, 300))
+CHECKS["C18"]["run"] = _c18_run
 
 
 _c11_src = CHECKS["C11"]["run"]
